@@ -1,6 +1,85 @@
 import Driver.Util
+import Sqfs.Model.Path
+import Sqfs.Model.HardLink
 namespace Driver.C07
-/-- stub: the model driver for C07 is not built yet -/
+open Sqfs.HardLink
+
+/-! ### hard links: `hl` (repaired model) / `hlcur <fuel>` (model of the shipped code) -/
+
+structure Ent where
+  kind : Tree.Kind
+  name : List UInt8
+  target : List UInt8
+
+def parseEnt (tok : String) : Option Ent :=
+  match tok.splitOn ":" with
+  | [k, n, t] => do
+    let kind ← (match k with
+      | "d" => some Tree.Kind.dir
+      | "f" => some Tree.Kind.other
+      | "s" => some Tree.Kind.other
+      | "l" => some Tree.Kind.hlink
+      | _ => none)
+    let name ← fromHex n
+    let target ← fromHex t
+    -- the callers canonicalise names; the harness refuses anything else too
+    if Sqfs.Path.canonicalize name = some name then some { kind, name, target } else none
+  | _ => none
+
+def errnoStr : Errno → String
+  | .ENOENT => "ENOENT" | .ENOTDIR => "ENOTDIR" | .EMLINK => "EMLINK" | .EPERM => "EPERM"
+
+def addErrStr : Tree.AddErr → String
+  | .EINVAL => "EINVAL" | .ENOTDIR => "ENOTDIR" | .EEXIST => "EEXIST"
+
+def buildTree : Tree.T → Nat → List Ent → Except String Tree.T
+  | t, _, [] => .ok t
+  | t, i, e :: rest =>
+    match Tree.addGeneric Sqfs.Path.canonicalize t e.name e.kind e.target with
+    | .error err => .error s!"adderr {i} {addErrStr err}"
+    | .ok t' => buildTree t' (i + 1) rest
+
+def showOk (t : Tree.T) (st : St) (ents : List Ent) : String :=
+  let one (e : Ent) : String :=
+    match Tree.lookup t e.name with
+    | .fail _ => "?"
+    | .found i =>
+      match (Tree.toGraph t)[i]? with
+      | some (.hlink _) =>
+        (match st.resolved i with
+         | some tg => "L" ++ toHexTok (Tree.pathOf t t.length tg)
+         | none => "L?")
+      | _ => "N" ++ toString (st.linkCount i)
+  "ok R" ++ toString (st.linkCount 0) ++ String.join (ents.map (fun e => " " ++ one e))
+
+def hlStep (cur : Option Nat) (toks : List String) : String :=
+  match toks.mapM parseEnt with
+  | none => "bad-op"
+  | some ents =>
+    match buildTree Tree.init 0 ents with
+    | .error s => s
+    | .ok t =>
+      let g := Tree.toGraph t
+      let links := Tree.links t
+      let st0 := St.init (Tree.counts t)
+      let r := match cur with
+        | none => resolveAllFix g (links.length + 2) st0 links
+        | some fuel => resolveAllCur g fuel st0 links
+      match r with
+      | .ok st => showOk t st ents
+      | .err n e => "err " ++ toHexTok (Tree.pathOf t t.length n) ++ " " ++ errnoStr e
+      | .outOfFuel => "spin"
+      | .badIndex => "bad-index"
+
+def step (line : String) : String :=
+  match words line with
+  | "hl" :: toks => hlStep none toks
+  | "hlcur" :: f :: toks => match f.toNat? with
+      | some fuel => hlStep (some fuel) toks
+      | none => "bad-op"
+  | _ => "bad-op"
+
 def run (_args : List String) : IO Unit := do
-  IO.eprintln "sqfsmodel: model C07 not built yet"
+  lineLoop (← IO.getStdin) (← IO.getStdout) step
+
 end Driver.C07
